@@ -41,6 +41,21 @@ CLAIMED["C01"]["note"] = "Yield-level part explores sequentially consistent inte
 CLAIMED["C06"]["text"] += " Engine A2 additionally moves the clock / abandons the request at every yield point of the transmit and receive paths (pre-emption-bounded enumeration on five small scenarios with a competitor for the slot, random/PCT beyond) and judges the consequences named by the property: another request sharing the buffer, foreign data, differing retransmissions, a slot lost at quiescence, a request that hangs."
 CLAIMED["C06"]["note"] = "Sequentially consistent interleavings only. Time is virtual, so 'never hangs' is decided as 'resolves at the modelled deadline / no wake-up pending'. Consequences that follow a recorded unconditional release store while TX/RX is inside are attributed to that known finding."
 
+CLAIMED.update({
+ "C12": dict(engine="sii", category="exploration", design_ref="§5 C12",
+   technique="property-based testing: device descriptions -> EEPROM images through an independent SII encoder, all range reads and parsed queries compared with the description (round trip / reference model)",
+   text="Random well-formed device descriptions (strings incl. non-ASCII/NUL/long, SMs, FMMUs, FMMU_EX, PDOs with entries, unknown categories interleaved in any order, sizes up to 128 KiB of address space) are encoded by the harness's own SII encoder; every byte-range read (odd lengths, mid-chunk ends, words >= 0x8000; 4 and 8 byte chunks; canary after the buffer) and every parsed value must equal the description, with the crate's documented string normalisation and explicit capacity errors accepted.",
+   note="Runs through the verif-hooks facade SiiQueries over an in-memory provider; only SII fields whose position is unambiguous in ETG.1000.6/ETG.2010 are compared (General: string indices, CoE/FoE/EoE details, flags, current)."),
+ "C13": dict(engine="sii", category="exploration", design_ref="§5 C13",
+   technique="property-based fuzzing of the EEPROM parser: arbitrary / mutated / adversarial images, panic capture and a pigeonhole read budget that decides non-termination, in two arithmetic profiles",
+   text="Images (random bytes, well-formed images with byte mutations and truncation, hand-built category chains with absurd lengths, constant fill, categories pushed to the 64 KiB / 128 KiB boundaries) are fed to every EEPROM query. A panic (caught, or a fatal signal via the crash guard) is a violation; so is a query that issues more chunk reads than the walk has distinct states. Runs in release and in a profile with overflow checks + debug assertions, merged.",
+   note="In-memory provider through the verif-hooks facade; the initialisation steps built on the queries (configuration.rs) are reached by the simulator-based checks, not here."),
+ "C14": dict(engine="sii", category="fault_enumeration", design_ref="§5 C14",
+   technique="exhaustive enumeration of all 65536 alias values over random headers plus property-based generic writes, before/after image comparison with an independent bitwise CRC-8",
+   text="Every alias 0..=65535 is written into a fresh random header: exactly the alias word and the checksum word may change, the checksum must be CRC-8(poly 0x07, init 0xFF) of the first 14 bytes after the change, the alias must read back. Generic writes of 0..64 bytes at generated word addresses (incl. >= 0x8000, odd lengths) must store exactly the bytes, pad an odd byte with zero and touch no other word.",
+   note="In-memory provider; command-error retries and busy devices need the simulated SII register interface (simulator-based part)."),
+})
+
 NOT_YET = {}
 
 ALL = [f"C{i:02d}" for i in range(1,21)]
@@ -74,6 +89,7 @@ def main():
       },
       "engines":[
         {"name":"pdusim","path":"harness/vlib","serves_properties":[p for p in CLAIMED if CLAIMED[p]["engine"]=="pdusim"],"kind_free_text":"PDU-loop harness: real frame builder / TX / RX driven op by op under a virtual clock, reference frame encoder, slot snapshots through verif-hooks"},
+        {"name":"sii","path":"harness/vlib/src/sii.rs","serves_properties":["C12","C13","C14"],"kind_free_text":"independent SII EEPROM encoder + in-memory EepromDataProvider (4/8 byte chunks, read budget), driven through the verif-hooks SiiQueries facade"},
         {"name":"a2","path":"harness/vlib/src/a2.rs","serves_properties":["C01","C02","C06"],"kind_free_text":"yield-level scheduler: parties as ucontext coroutines on one thread, baton handed over at every verif-hooks point, schedules generated (random/PCT) or enumerated (pre-emption bounded), ownership monitor"},
       ],
       "checks":checks,
